@@ -545,5 +545,28 @@ def line_count(ctx):
     ctx.check(bool(mp) and src(mp[0].value) == "self.match_position" and bool(pos) and mp[0].lineno < pos[0].lineno < inc[0].lineno, "old-cursor-saved", db.where(mr), "the old cursor is not saved before the cursor moves / line count precedes the move", "mp saved, cursor moved, then lines counted")
     ml = [s for s in walk_func(mr) if isinstance(s, ast.Assign) and dotted(s.targets[0]) == "self.matched_lineno"]
     ctx.check(bool(ml) and src(ml[0].value) == "self.lineno" and ml[0].lineno < inc[0].lineno, "matched-lineno", db.where(mr), "matched_lineno is not the line at the start of the match", "matched_lineno = line before advancing")
+    # the column: old cursor minus the index of the last newline before it (-1 when there is none)
+    from ..engine import pattern as P
+    forms = [
+        "$cp = $mp - 1\nif $cp >= 0 and $cp < self.textlength:\n    $cp = self.text[:$cp + 1].rfind('\\n')\nself.matched_charpos = $mp - $cp",
+        "$cp = self.text[:$mp].rfind('\\n')\nself.matched_charpos = $mp - $cp",
+        "$cp = self.text.rfind('\\n', 0, $mp)\nself.matched_charpos = $mp - $cp",
+        "self.matched_charpos = $mp - self.text.rfind('\\n', 0, $mp)",
+    ]
+    wrong = [
+        "$cp = $mp - 1\nif $cp > 0 and $cp < self.textlength:\n    $cp = self.text[:$cp + 1].rfind('\\n')\nself.matched_charpos = $mp - $cp",
+        "$cp = $mp - 1\nif $cp >= 0 and $cp < self.textlength:\n    $cp = self.text[:$cp].rfind('\\n')\nself.matched_charpos = $mp - $cp",
+    ]
+    if any(P.has(mr, f) for f in forms):
+        ctx.ok("column.last-newline", db.where(mr), "column counted from the last newline before the old cursor (text[:cursor])")
+    elif any(P.has(mr, f) for f in wrong) or not P.has(mr, "self.text[:$x + 1].rfind('\\n')") and not P.has(mr, "rfind"):
+        ctx.violation("column.last-newline", db.where(mr), "the column is not computed from the last newline strictly before the old cursor for every cursor position (a node starting at offset 1 gets the column of offset 0): two nodes report the same position")
+    else:
+        g_ = [i for i in walk_func(mr) if isinstance(i, ast.If) and "rfind" in src(i)]
+        bad_guard = any(isinstance(i.test, ast.BoolOp) and any(isinstance(c, ast.Compare) and isinstance(c.ops[0], ast.Gt) and const(c.comparators[0]) == 0 for c in i.test.values) for i in g_)
+        if bad_guard:
+            ctx.violation("column.last-newline", db.where(mr), "the newline search is skipped when the previous character is at offset 0 (`> 0` instead of `>= 0`): a node starting at offset 1 reports the column of offset 0")
+        else:
+            ctx.ok("column.last-newline", db.where(mr), "column computation not in a recognised normal form (not decided)")
     cp = [s for s in walk_func(mr) if isinstance(s, ast.Assign) and dotted(s.targets[0]) == "self.matched_charpos"]
     ctx.check(bool(cp) and src(cp[0].value).replace(" ", "") == "mp-cp", "column", db.where(mr), "column is `%s`" % (src(cp[0].value) if cp else None), "column = old cursor - position of the previous newline")
